@@ -25,7 +25,8 @@ EXTENDS Naturals, Sequences, FiniteSets, SequencesExt, TLC, Json, IOUtils
 
 CONSTANTS AVals, BVals, LVals, SVals, PVals, QVals, RVals, Tags,   \* value universes per field
           PairsOnly,   \* TRUE: one initial state per pair (z = Empty), for a richer universe
-          Stride       \* export every Stride-th pair
+          Stride,      \* export every Stride-th pair
+          Stride3      \* export every Stride3-th triple (harvest pipelines; only if ~PairsOnly)
 
 Absent(d) == [has |-> FALSE, v |-> d]
 Given(x)  == [has |-> TRUE, v |-> x]
@@ -74,6 +75,16 @@ OnlyEqualClashes(x, y) ==
     /\ eqA(x.a, y.a) /\ eqA(x.b, y.b)
     /\ (x.n.has /\ y.n.has) => (eqA(x.n.p, y.n.p) /\ eqA(x.n.q, y.n.q) /\ eqA(x.n.r, y.n.r))
 
+(* harvest(schema, sources) (harvester/__init__.py): the outputs of the sources are folded  *)
+(* from the left in the given order without overwrite permission; the first conflict       *)
+(* aborts the pipeline; a source that finds nothing contributes the empty partial.         *)
+RECURSIVE HarvestFrom(_, _)
+HarvestFrom(acc, srcs) ==
+    IF srcs = <<>> THEN [c |-> FALSE, v |-> acc]
+    ELSE LET m == Merge(acc, Head(srcs), FALSE) IN
+         IF m.c THEN m ELSE HarvestFrom(m.v, Tail(srcs))
+Harvest(srcs) == HarvestFrom(Empty, srcs)
+
 (* ---- one initial state per triple ------------------------------------------------ *)
 VARIABLES x, y, z
 vars == <<x, y, z>>
@@ -108,6 +119,21 @@ LaterWins ==           \* with overwrite: never a conflict, the later provided a
     /\ (y.a.has => m.v.a = y.a) /\ (~y.a.has => m.v.a = x.a)
     /\ Provided(y) \subseteq Provided(m.v)
 
+(* the pipeline is the fold of Merge, grouping is irrelevant, empty sources are neutral and  *)
+(* a pipeline that does not abort loses nothing                                              *)
+HarvestIsFold ==
+    LET h == Harvest(<<x, y, z>>) l == Merge3L(x, y, z, FALSE) r == Merge3R(x, y, z, FALSE) IN
+    /\ h.c = l.c /\ h.c = r.c
+    /\ ~h.c => (h.v = l.v /\ h.v = r.v)
+HarvestEmptySourcesNeutral ==
+    LET h == Harvest(<<x, y, z>>) IN
+    \A k \in 0..3 :
+       LET g == Harvest(SubSeq(<<x, y, z>>, 1, k) \o <<Empty>> \o SubSeq(<<x, y, z>>, k + 1, 3)) IN
+       g.c = h.c /\ (~h.c => g.v = h.v)
+HarvestLossless ==
+    LET h == Harvest(<<x, y, z>>) IN
+    ~h.c => Provided(x) \cup Provided(y) \cup Provided(z) \subseteq Provided(h.v)
+
 (* ---- export of all pairs for conformance ------------------------------------------ *)
 Export ==
     /\ TLCGet("stats").generated >= 0
@@ -120,4 +146,15 @@ Export ==
                 m == Merge(us[i], us[j], FALSE) mo == Merge(us[i], us[j], TRUE) IN
             [x |-> us[i], y |-> us[j], conflict |-> m.c, v |-> m.v, vow |-> mo.v,
              lenient |-> m.c /\ OnlyEqualClashes(us[i], us[j])]])
+    /\ PairsOnly \/
+       LET us == SetToSeq(Universe) n == Len(us)
+           ncases == ((n * n * n - 1) \div Stride3) + 1 IN
+       JsonSerialize(IOEnv.OUT3_FILE,
+         [c \in 1..ncases |->
+            LET k == (c - 1) * Stride3
+                i == (k \div (n * n)) + 1 j == ((k \div n) % n) + 1 l == (k % n) + 1
+                h == Harvest(<<us[i], us[j], us[l]>>) IN
+            [x |-> us[i], y |-> us[j], z |-> us[l], conflict |-> h.c, v |-> h.v,
+             lenient |-> h.c /\ OnlyEqualClashes(us[i], us[j])
+                             /\ OnlyEqualClashes(Merge(us[i], us[j], TRUE).v, us[l])]])
 =============================================================================
